@@ -39,7 +39,7 @@ ASSUMPTIONS = ["a run that exhausts its wall-clock cap (300 s; documents with hu
 # parameter (replay files recorded before it existed) use grammar 1, whose tape layout is unchanged
 TIERS = {"quick": {"runs": 160, "budget_s": 75, "chunk": 2, "params": {"grammar": 2}}, "thorough": {"runs": 20000, "budget_s": 900, "chunk": 2, "params": {"grammar": 2}}}
 # one run spawns up to a few hundred real processes (node, /bin/echo, /bin/cat): on a loaded machine a chunk may need minutes
-STALL_S = 900
+STALL_S = 420
 WALL_TIMEOUT = "undecided"
 SIM_KW = {"max_steps": 3_000_000, "wall_cap": 300.0, "max_vtime": 1e7}
 
